@@ -315,3 +315,42 @@ def resolve_owner(f, operand, want_mut=False, depth=0):
     return None
 
 
+
+
+def ref_sinks(f, owner):
+    """For every `&mut owner` borrow: the stripped callee paths the reference (through reborrows and
+    casts) is passed to; None entries mean the reference is stored / used in another way."""
+    sinks = []
+    for b, i, st in f.iter_stmts():
+        if st["k"] == "assign" and st["rv"]["k"] in ("ref", "rawptr") and st["rv"].get("bk") == "mut" and st["rv"]["place"]["local"] == owner:
+            if st["place"]["proj"]:
+                sinks.append(None)
+                continue
+            seen = set()
+            work = [st["place"]["local"]]
+            while work:
+                x = work.pop()
+                if x in seen:
+                    continue
+                seen.add(x)
+                for bb, ii, kind, item in uses_of_local(f, x):
+                    if f.blocks[bb]["cleanup"]:
+                        continue
+                    if kind == "stmt":
+                        rv = item["rv"]
+                        if rv["k"] in ("ref", "use", "cast", "rawptr") and not item["place"]["proj"]:
+                            work.append(item["place"]["local"])
+                        else:
+                            sinks.append(None)
+                    elif kind == "call":
+                        p = core.callee_path(item)
+                        sinks.append(core.strip_generics(p) if p else None)
+                        # a reference returned by the call may alias: follow its destination if it is a reference
+                        d = item["dest"]
+                        if not d["proj"] and f.locals[d["local"]]["ty"].get("k") == "ref" and f.locals[d["local"]]["ty"].get("mut"):
+                            work.append(d["local"])
+                    elif kind == "drop":
+                        pass
+                    else:
+                        sinks.append(None)
+    return sinks
